@@ -54,6 +54,15 @@
 // is reported through the listener (tokenStream, plain Lexer, optimizeTables+cancellableFetch)
 // and the shipped js, tm and test parsers.
 //
+// Reported white-space-like tokens (comments): long and short valid inputs with comments after
+// every possible cancellation point, also right before the end of input, for the shipped js, tm
+// and test parsers and for the generated glhs/glhl/glho parsers (every moment): a cancelled parse
+// that finishes must still report them, one that stops must have reported a prefix. Comments,
+// white space and invalid tokens are not shifted and do not count towards the token bound.
+//
+// Order: the shipped parsers run first (in-process, seconds), so the time budget that the
+// generate+build batches may exhaust on a loaded machine never cuts them.
+//
 // A finding whose run polled the context at least twice after the cancellation gets the key
 // prefix "poll-saw-cancellation-but-parse-continued": some poll saw the closed Done channel and
 // its answer was dropped on the way to Parse's return.
